@@ -18,7 +18,7 @@ from tools.vlib import Outcome, sx
 from tools.props import c16_world as W
 
 MANIFEST = {
-    "level_text": "Coq theorems (Properties/C16.v, no axioms) about a Gallina transcription of every file-system effect of the three entry points (FileWriter, GenerationCache::save, the two visualisation writes, run_generate, run_init, BuildSystem::run_generation with OutputManager::prepare_output_directory / cleanup_old_files / is_generated_file / finalize_generation) on an abstract file system, for every file system, every effective configuration, every analysis result and every history of runs: outside the two recorded classes (build-script run with a foreign regular file .write_test, or with a project source named generated_* / *_generated*, directly inside its output directory) every path that is not (a reserved name directly inside the run's output directory and not a project source) and is not the file init was pointed at keeps its bytes, no foreign file appears, no directory disappears and new directories are output directories or their ancestors; the CLI entries satisfy this outright; the classes are proved tight; reserved_b is proved equivalent to the property text's list and is_generated_file to select only reserved names. The model is tied to /repo on every run by executing the real binary and the real build entry in pre-populated sandboxes and comparing the whole resulting tree and the decision with the model's.",
+    "level_text": "Coq theorems (Properties/C16.v, no axioms) about a Gallina transcription of every file-system effect of the three entry points (FileWriter, GenerationCache::save, the two visualisation writes, run_generate, run_init, BuildSystem::run_generation with OutputManager::prepare_output_directory / cleanup_old_files / is_generated_file / finalize_generation, as repaired for C16-1 and C16-2) on an abstract file system, for every file system, every effective configuration, every analysis result and every history of runs, with no known-finding premise: every path that is not (a reserved name directly inside the run's output directory and not a project source) and is not the file init was pointed at keeps its bytes, no foreign file appears, no directory disappears and new directories are output directories or their ancestors; reserved_b is proved equivalent to the property text's list, is_generated_file to select only reserved names and never a project source; the witnesses of the two repaired defects are theorems that the files survive. The model is tied to /repo on every run by executing the real binary and the real build entry in pre-populated sandboxes and comparing the whole resulting tree and the decision with the model's.",
     "design_ref": "DESIGN.md section 5 C16",
     "level_note": "Partial: symbolic links, dot-dot components, permissions and concurrent writers are the operating system's and are outside the model (paths are normalised component lists; the generators use none of them). Analysis result and rendered contents are parameters of a run (universally quantified in the theorems; taken from a reference generation in the correspondence). The configuration resolution (flag > file > default) is C19's; here the effective configuration is an input, recomputed in python for the sandboxes. Reserved is read as: a regular file DIRECTLY inside the output directory bearing a reserved name (the strict reading; nested files with reserved names count as foreign). Trusted: Coq kernel; the hand-written model's tie to the code is differential (bounded).",
     "technique": "Rocq/Coq proof over hand-written model + correspondence check (extracted OCaml vs real CLI binary and Rust build-entry driver in sandboxes)"
@@ -42,7 +42,6 @@ ASSUMPTIONS = [
     "single-source-file projects in the sandboxes, so the serialised cache record is a deterministic function of sources and configuration (several files: C13/C14)",
 ]
 
-KF_IDS = {1: "C16-1", 2: "C16-2"}
 CORPUS = os.path.join(vlib.VERIF, "corpus", "C16")
 
 
@@ -116,20 +115,18 @@ def evaluate(scenarios):
             raise vlib.BuildError("runner: %s" % r)
         by[key] = (h[0], r)
     outs = []
-    stats = {"runs": 0, "changed_paths": 0, "by_entry": {}, "by_decision": {}, "in_class_runs": 0}
+    stats = {"runs": 0, "changed_paths": 0, "by_entry": {}, "by_decision": {}}
     for i, (sc, o) in enumerate(zip(scenarios, obs)):
         case = sc
         if o.get("error"):
             outs.append(Outcome(case, False, False, detail={"harness_error": o["error"]}))
             continue
         corr = ok = True
-        explained = True
-        classes = []
         det = None
         nontriv = False
         steps_summary = []
         for k, st in enumerate(o["steps"]):
-            (kf1, kf2, m_out, m_fs), (o_ok, o_bad) = by[(i, k)]
+            (m_out, m_fs), (o_ok, o_bad) = by[(i, k)]
             mfs = model_fs(m_fs)
             this_corr = mfs == st["after"] and coarse(st["entry"], m_out) == st["decision"]
             this_ok = o_ok == "true"
@@ -138,23 +135,13 @@ def evaluate(scenarios):
             stats["changed_paths"] += len(d["changed_files"]) + len(d["new_dirs"])
             stats["by_entry"][st["entry"]] = stats["by_entry"].get(st["entry"], 0) + 1
             stats["by_decision"][st["decision"]] = stats["by_decision"].get(st["decision"], 0) + 1
-            if kf1 == "true" or kf2 == "true":
-                stats["in_class_runs"] += 1
             if d["changed_files"] or d["new_dirs"] or st["foreign_in_out"]:
                 nontriv = True
-            bad = [("/".join(p), int(c)) for p, c in o_bad]
-            if not this_ok:
-                # every rejected path must be explained by a recorded class the run really is in
-                # (extracted c16_explained and kf_C16_* evaluated on the state before the run)
-                in_class = (bool(bad) and not d["gone_dirs"]
-                            and all(W.is_prefix(W.comps(x), st["out"]) for x in d["new_dirs"])
-                            and all((c == 1 and kf1 == "true") or (c == 2 and kf2 == "true") for _, c in bad))
-                explained = explained and in_class
-                classes += [c for _, c in bad]
+            bad = ["/".join(p) for p in o_bad]
             summ = {"run": k, "entry": st["entry"], "decision": st["decision"], "model_decision": m_out,
                     "out": "/".join(st["out"]), "proj": "/".join(st["proj"]), "changed_files": d["changed_files"],
                     "new_dirs": d["new_dirs"], "gone_dirs": d["gone_dirs"], "offending": bad, "oracle_ok": this_ok,
-                    "corr": this_corr, "in_class_1": kf1 == "true", "in_class_2": kf2 == "true"}
+                    "corr": this_corr}
             if not this_corr:
                 summ["model_vs_impl"] = W.dict_diff(mfs, st["after"])
                 summ["impl_output"] = st["output"][-600:]
@@ -162,7 +149,7 @@ def evaluate(scenarios):
             corr &= this_corr
             ok &= this_ok
         det = {"steps": steps_summary}
-        kf = KF_IDS[classes[0]] if (not ok and explained and classes) else None
+        kf = None                      # no recorded class is left (C16-1 and C16-2 are repaired)
         outs.append(Outcome(case, corr, ok, kf, det, nontriv))
     return outs, stats
 
